@@ -15,7 +15,7 @@ ROUND_TRIP_TOKENS = {
     "LocalTime": ["H", "HH", "h", "hh", "m", "mm", "s", "ss", "fff", "ffffff", "fffffffff", "FFF", "FFFFFFFFF", ".fff", ".FFF", ";fff", ";FFFFFFFFF",
                   "f", "ff", "ffff", "fffff", "F", "FFFF", ".ffff", ".FFFF", ".FFFFFF", ";FFFF", ".fffffff", ".FFFFFFFF",
                   "t", "tt", ":", ".", " ", "'at'", "\\h", "'.'", "\\."],
-    "LocalDate": ["yyyy", "uuuu", "uuu", "uu", "u", "M", "MM", "MMM", "MMMM", "d", "dd", "ddd", "dddd", "g", "gg", "c", "/", "-", " ", "'of'", ",", "\\d"],
+    "LocalDate": ["yyyy", "yy", "uuuu", "uuu", "uu", "u", "M", "MM", "MMM", "MMMM", "d", "dd", "ddd", "dddd", "g", "gg", "c", "/", "-", " ", "'of'", ",", "\\d"],
     "AnnualDate": ["M", "MM", "MMM", "MMMM", "d", "dd", "/", "-", " ", "'of'"],
 }
 ROUND_TRIP_TOKENS["Duration"] = ["D", "DD", "H", "HH", "h", "hh", "M", "MM", "m", "mm", "S", "SS", "s", "ss", "+", "-", ":", ".", " ", "'d'", "'.'", "\\.",
@@ -53,7 +53,7 @@ def fields(typ, v) -> dict:
         s = n // 10**9
         return {"h": s // 3600, "mi": (s % 3600) // 60, "s": s % 60, "n": n % 10**9}
     if typ == "LocalDate":
-        return {"y": v.year, "m": v.month, "d": v.day, "era": v.era.name, "cal": v.calendar.id}
+        return {"y": v.year, "m": v.month, "d": v.day, "era": v.era.name, "cal": v.calendar.id, "yoe": v.year_of_era, "yymax": 30}
     if typ == "LocalDateTime":
         return {**fields("LocalDate", v.date), **fields("LocalTime", v.time_of_day)}
     if typ == "AnnualDate":
@@ -184,6 +184,16 @@ def fit_value(typ, tokens, v, pat, rnd):
         y, m, dd = d.year, d.month, d.day
         if not has("yyyy", "uuuu", "uuu", "uu", "u"):
             y = tpl.year
+            if has("yy"):
+                # a year of the hundred the pattern's two-digit window covers (sometimes one just outside it)
+                try:
+                    ymax = pat.two_digit_year_max
+                    cent = tpl.year_of_era // 100
+                    two = rnd.randint(0, 99)
+                    yoe = two + 100 * (cent - (1 if two > ymax and cent > 1 else 0)) + rnd.choice([0, 0, 0, 100, -100])
+                    y = d.calendar.get_absolute_year(max(yoe, 1), tpl.era)
+                except Exception:  # noqa: BLE001
+                    pass
         if not has("M", "MM", "MMM", "MMMM"):
             m = tpl.month
         if not has("d", "dd"):
@@ -327,6 +337,7 @@ def gen(args) -> list:
         tsep, dsep = seps[id(culture)]
         builtin = rnd.random() < 0.25
         tokens = []
+        yymax = 30
         try:
             if not builtin and typ in STANDARD_LETTERS and rnd.random() < 0.3:
                 # a standard letter: it stands for the culture's own pattern text, whose tokens the spec is given
@@ -357,6 +368,9 @@ def gen(args) -> list:
                     continue            # a single letter is a standard pattern, not a custom one
                 pat = textgen.create(typ, pname, culture)
                 tokens = [x for t in tokens for x in EMBEDDED.get(t, [t])]
+                if "yy" in tokens and typ in ("LocalDate", "LocalDateTime") and rnd.random() < 0.6:
+                    yymax = rnd.choice([0, 10, 29, 30, 31, 50, 99, rnd.randint(0, 99)])
+                    pat = pat.with_two_digit_year_max(yymax)
         except Exception:  # noqa: BLE001 - not a valid pattern: C08's business
             continue
         for _v in range(4):
@@ -371,6 +385,8 @@ def gen(args) -> list:
             ev = {"op": "rt", "type": typ, "pattern": pname, "tokens": tokens, "culture": culture.name if culture is not None else "",
                   "roundtrip_builtin": builtin, "ampm_ok": ampm_ok, "text_ok": text_ok, "value": fields(typ, v),
                   "time_sep": tsep if not builtin else cps(":"), "date_sep": dsep if not builtin else cps("/")}
+            if "yymax" in ev["value"]:
+                ev["value"]["yymax"] = yymax
             if text_ok and any(t in ("MMM", "MMMM", "ddd", "dddd") for t in tokens):
                 dv = v.in_utc().date if typ == "Instant" else v.date if typ == "LocalDateTime" else v
                 if name_extends(culture, tokens, dv.month, dv.day_of_week.value if typ != "AnnualDate" else None):
@@ -410,6 +426,8 @@ def gen(args) -> list:
                 ev["parsed_ok"] = bool(r.success)
                 if r.success:
                     ev["parsed"] = fields(typ, r.value)
+                    if "yymax" in ev["parsed"]:
+                        ev["parsed"]["yymax"] = yymax      # (a property of the pattern, carried in the value record for the spec)
                     ev["reformat"] = cps(p.format(r.value))
             except Exception as e:  # noqa: BLE001
                 ev["exc"] = type(e).__name__
